@@ -140,6 +140,22 @@ class C12(Prop):
                 rec["post"] = be.p_state(S)
                 rec["back"] = be.p_list(S.to_map())
                 rec["m1"] = be.p_list(M)
+                # the same map object, changed in place, converted again: the state of the map as it is now
+                n_ = len(scn["m"]) // 2
+                M.rotate_by(be.pauli([2] + [1] * (n_ - 1) + [0]))
+                M.rotate_by(be.pauli([3] * n_ + [2]))
+                rec2 = {"op": "tostate", "m": be.p_list(M), "rarg": rec["rarg"], "live": True}
+                S2 = M.to_state() if scn["rarg"] is None else M.to_state(scn["rarg"])
+                rec2["post"] = be.p_state(S2)
+                rec2["back"] = be.p_list(S2.to_map())
+                rec2["m1"] = be.p_list(M)
+                S.rotate_by(be.pauli([1] * n_ + [0]))          # ... and the first state belongs to the caller
+                rec3 = {"op": "tostate", "m": rec2["m"], "rarg": rec["rarg"], "live": True}
+                S3 = M.to_state() if scn["rarg"] is None else M.to_state(scn["rarg"])
+                rec3["post"] = be.p_state(S3)
+                rec3["back"] = be.p_list(S3.to_map())
+                rec3["m1"] = be.p_list(M)
+                return [rec, rec2, rec3]
             elif k == "ctor":
                 rec["name"], rec["n"] = scn["name"], scn["n"]
                 f = {"zero": St.zero_state, "one": St.one_state, "ghz": St.ghz_state, "mixed": St.maximally_mixed_state}[scn["name"]]
